@@ -69,3 +69,15 @@ Definition is_helper_entry (e : option entry) : Prop :=
 (* the init / repr / eq switches of the decorator *)
 Definition core_enabled (c : cfg) (cr : core) : bool :=
   match cr with CInit => c_init c | CRepr => c_repr c | CEq => c_eq c | _ => true end.
+
+(* a configuration that asks for a constructor with one name for two parameters:
+   (self, <key>, *, ..., **<overflow>).  Decoration of such a class must raise. *)
+Definition nonempty_name (o : option name) : option name :=
+  match o with Some n => if String.eqb n "" then None else Some n | None => None end.
+Definition contradictory_constructor (c : cfg) : bool :=
+  match nonempty_name (c_key c), nonempty_name (c_overflow c) with
+  | Some k, Some o => String.eqb k o || String.eqb k "self" || String.eqb o "self"
+  | Some k, None => String.eqb k "self"
+  | None, Some o => String.eqb o "self"
+  | None, None => false
+  end.
